@@ -541,7 +541,9 @@ impl BuiltInFunction {
 
                 let start_i64 = start as i64;
                 let end_i64 = end as i64;
-                let length = end_i64 - start_i64;
+                // The casts saturate, so the difference of two finite numbers of huge
+                // magnitude can exceed the i64 range
+                let length = end_i64.saturating_sub(start_i64);
 
                 if length > u32::MAX as i64 {
                     return Err(RuntimeError::new(format!(
@@ -604,7 +606,8 @@ impl BuiltInFunction {
                     return Err(RuntimeError::from("median requires at least one number"));
                 }
 
-                nums.sort_by(|a, b| a.partial_cmp(b).unwrap());
+                // total_cmp: NaN elements must not panic the sort
+                nums.sort_by(|a, b| a.total_cmp(b));
                 let len = nums.len();
                 if len % 2 == 0 {
                     Ok(Value::Number((nums[len / 2 - 1] + nums[len / 2]) / 2.0))
@@ -627,7 +630,14 @@ impl BuiltInFunction {
                     .map(|a| a.as_number())
                     .collect::<AnyhowResult<Vec<f64>>>()?;
 
-                nums.sort_by(|a, b| a.partial_cmp(b).unwrap());
+                if nums.is_empty() {
+                    return Err(RuntimeError::from(
+                        "percentile requires at least one number",
+                    ));
+                }
+
+                // total_cmp: NaN elements must not panic the sort
+                nums.sort_by(|a, b| a.total_cmp(b));
                 let index = (p / 100.0 * (nums.len() - 1) as f64).round() as usize;
 
                 Ok(Value::Number(nums[index]))
